@@ -108,16 +108,29 @@ def _tridonic(run, repo, world, folder):
                                                   sp["response_format"]),
            where(mod, c.node))
     o, cmdfn = _m(world, Q, "_cmd")
-    packs = [x for x in call_sites(cmdfn) if unparse(x.func).endswith(
-        "_cmdtmpl.pack")]
+    # the packet builder is evaluated with one symbol per parameter, in the
+    # order of its signature (callers pass cmd and the sequence number by
+    # position, the rest by keyword - the packets of those callers are
+    # evaluated separately below): byte k of the packet is field k
+    from ..wireval import WireEval as _WE, Sym as _Sym
     params = [a.arg for a in cmdfn.args.args]
-    run.ob("R-WIRE-TRIDONIC", Q + "._cmd#field-order", len(packs) == 1 and
-           [unparse(a) for a in packs[0].args] == params and params == [
-               "cmd", "serial", "ctrl", "mode", "frame", "dtr0", "prio",
-               "devtype"],
+    if len(params) != 8:
+        raise AnalysisError("tridonic._cmd: expected the eight packet fields "
+                            "as parameters, found %s" % params)
+    fr4 = [_Sym("f%d" % k) for k in range(4)]
+    binds = {}
+    for k, pn in enumerate(params):
+        binds[pn] = fr4 if k == 4 else _Sym("p%d" % k)
+    r = _WE(world, folder, c, {"nbytes": 4, "nbits": 32, "sendtwice": False}
+            ).run(cmdfn, binds)
+    want = [_Sym("p0"), _Sym("p1"), _Sym("p2"), _Sym("p3")] + fr4 + [
+        _Sym("p5"), _Sym("p6"), _Sym("p7")] + [0] * 53
+    run.ob("R-WIRE-TRIDONIC", Q + "._cmd#field-order",
+           r[0] == "return" and isinstance(r[1], list) and list(r[1]) == want,
            "fields must be packed in the order cmd, seq, ctrl, mode, frame, "
-           "dtr, prio, devtype (got %s)" % ([unparse(a) for a in
-                                             packs[0].args] if packs else None),
+           "dtr, prio, devtype and padded to 64 bytes (evaluating _cmd with "
+           "one symbol per parameter gives %s...)" % (
+               list(r[1])[:12] if isinstance(r[1], list) else r,),
            where(mod, cmdfn))
     o, sfn = _m(world, Q, "_send_raw")
     from ..wireval import (WireEval, CmdObj, SelfObj, FrameObj, Sym,
@@ -1081,6 +1094,54 @@ class Lin:
         return "%s" % self.b if self.a == 0 else "n%+d" % self.b
 
 
+def _seqnum_start(world, folder):
+    """Interval of the value the tridonic driver starts its sequence number
+    generator from: the argument of every `_seqnum(...)` call in the class
+    (random.randint(a, b) is [a, b], random.randrange(n) is [0, n - 1],
+    random.randrange(a, b) is [a, b - 1], a constant is itself)."""
+    c = world.cls(HID + ".tridonic")
+    lo = hi = None
+    n = 0
+    for name, (kind, f) in c.methods.items():
+        for x in ast.walk(f):
+            if not (isinstance(x, ast.Call) and unparse(x.func).endswith(
+                    "._seqnum") and len(x.args) == 1 and not x.keywords):
+                continue
+            n += 1
+            a = x.args[0]
+
+            def const(e):
+                v = folder.eval(e, {}, HID)
+                if not isinstance(v, int) or isinstance(v, bool):
+                    raise AnalysisError(
+                        "R-SEQ: start of the tridonic sequence number "
+                        "`%s` does not fold to an integer" % unparse(e))
+                return v
+            iv = None
+            if isinstance(a, ast.Call) and not a.keywords:
+                fnm = unparse(a.func)
+                if fnm in ("random.randint", "randint") and len(a.args) == 2:
+                    iv = (const(a.args[0]), const(a.args[1]))
+                elif fnm in ("random.randrange", "randrange") and \
+                        len(a.args) == 1:
+                    iv = (0, const(a.args[0]) - 1)
+                elif fnm in ("random.randrange", "randrange") and \
+                        len(a.args) == 2:
+                    iv = (const(a.args[0]), const(a.args[1]) - 1)
+            elif not isinstance(a, ast.Call):
+                v = const(a)
+                iv = (v, v)
+            if iv is None:
+                raise AnalysisError("R-SEQ: the start value `%s` of the "
+                                    "tridonic sequence number generator is "
+                                    "not a form the rule reads" % unparse(a))
+            lo = iv[0] if lo is None else min(lo, iv[0])
+            hi = iv[1] if hi is None else max(hi, iv[1])
+    if not n:
+        raise AnalysisError("R-SEQ: no call of tridonic._seqnum found")
+    return (lo, hi)
+
+
 def _seq(run, repo, world, folder):
     run.rule("R-SEQ", "sequence numbers stay in the protocol range and two "
              "consecutive numbers differ (interval fixpoint + composition "
@@ -1089,7 +1150,8 @@ def _seq(run, repo, world, folder):
     # (key, module, steps builder)
     o, fn = _m(world, HID + ".tridonic", "_seqnum")
     gens.append((HID + ".tridonic._seqnum", repo.mod(HID),
-                 _steps_generator(fn), (1, 255), (1, 255), fn))
+                 _steps_generator(fn), _seqnum_start(world, folder),
+                 (1, 255), fn))
     o, fn = _m(world, LTRI + ".TridonicDALIUSBDriver", "_get_sn")
     gens.append((LTRI + ".TridonicDALIUSBDriver._get_sn", repo.mod(LTRI),
                  _steps_method(fn, "self._next_sn"), (1, 1), (1, 255), fn))
